@@ -153,7 +153,8 @@ def cases(rng, quick, gr):
             yield {"tag": "shadowed-name-in-list", "pred": pred, "key": t_loop, "input": {"check": "unroll", "text": t_loop, "unrolled": t_unr}}
     # bad listed values: must be refused
     bad = [("int", '"a"'), ("int", "1.5"), ("int", "2j"), ("float", '"x"'), ("float", "1j"), ("str", "1"), ("str", "True"),
-           ("bool", "2"), ("bool", '"t"'), ("int", '"5"'), ("float", '"1.5"'), ("complex", '"1"')]
+           ("bool", "2"), ("bool", '"t"'), ("int", '"5"'), ("float", '"1.5"'), ("complex", '"1"'),
+           ("int", "3.0000000001"), ("int", "2 * 1.000000001"), ("bool", "1.000000001"), ("int", "1 - 1e-12"), ("int", "0.9999999999")]
     for ty, v in bad:
         for pos in range(3):
             vals = ["0", "1", "0"] if ty != "str" else ['"a"', '"b"', '"c"']
